@@ -257,12 +257,31 @@ def run(cx):
     b = cx.fn('common::svd_basis::SvdBasis::from_points')
     if b:
         r = cx.retval(b)
-        e = match('(phi (call *svd_from_vectors (call Iterator::collect (call Iterator::map (call Iterator::zip (param points) (unwrap (param weights))) (closure * $cw))) (agg *Option::Some (0 $cw))) '
-                  '(call *svd_from_vectors (call Iterator::collect (call Iterator::map (param points) (closure * $cu))) (agg *Option::Some (0 $cu))))', r)
-        ok = e is not None and match('(call *mean_point_weighted (param points) (unwrap (param weights)))', e['cw']) is not None and \
-            match('(call *mean_point (param points))', e['cu']) is not None
+        # per case (weights given / not given): the centre handed on is the (weighted) mean, and it is the centre the offsets were taken from -
+        # whether svd_from_vectors is called in both branches or once after `let (center, vectors) = if let Some(w) = weights {..} else {..}`
+        W = ('(is (param weights) Some)', '(is (param weights) None)')
+        got = {True: None, False: None}
+        for s_ in b.calls('*svd_from_vectors'):
+            a1 = s_.data['args'][1]
+            inner = None
+            if a1['k'] in ('copy', 'move') and not a1['pl']['p']:
+                ds = [d_ for d_ in b.defs().get(a1['pl']['l'], []) if d_[2] == 'assign' and d_[3]['rv']['k'] == 'agg' and len(d_[3]['rv']['ops']) == 1]
+                if len(ds) == 1:
+                    inner = (Site(b, ds[0][0], ds[0][1], 'agg', ds[0][3]), ds[0][3]['rv']['ops'][0])
+            cv = cx.cases_by(b, s_, [s_.data['args'][0]], W)
+            cc = cx.cases_by(b, inner[0], [inner[1]], W) if inner else {True: [None], False: [None]}
+            for pol in (True, False):
+                if cv[pol][0] is not None and cc[pol][0] is not None:
+                    got[pol] = (cv[pol][0], cc[pol][0])
+        ok = got[True] is not None and got[False] is not None
+        if ok:
+            vw, cw = got[True]
+            vu, cu = got[False]
+            ok = match('(call *mean_point_weighted (param points) (unwrap (param weights)))', cw) is not None and match('(call *mean_point (param points))', cu) is not None and \
+                match('(call Iterator::collect (call Iterator::map (call Iterator::zip (param points) (unwrap (param weights))) (closure * $c)))', vw, {'c': cw}) is not None and \
+                match('(call Iterator::collect (call Iterator::map (param points) (closure * $c)))', vu, {'c': cu}) is not None
         cx.ob('EXPR', 'SvdBasis::from_points:centre', ok,
-              'the centre subtracted from the points is the (weighted) mean of the same points and is the centre stored in the result (both branches)', where=b.file, found=r)
+              'the centre subtracted from the points is the (weighted) mean of the same points and is the centre stored in the result (both cases)', where=b.file, found=r)
         for cl in cx.facts.closures_of(b.name):
             rr = cx.retval(cl)
             if find('(field 1 (param 2))', rr) is not None or cl.name.endswith('{closure#0}'):
